@@ -17,7 +17,7 @@ TECHNIQUE = 'typestate over a statement CFG with exceptional edges (in-place sca
 LEVEL_TEXT = ('Crashes and hangs inside CyRK/LAPACK are out of reach. Decided: every exit of cf_radial_solver after the in-place non-dimensionalisation passes the restoring call (normal, explicit raise, and statements that may raise Python exceptions); '
               'no access to a stack array is outside its declared extent for any layer-kind combination; numeric accessors are dominated by `success`; `success` is set only on the error-free path; loops make progress; every assumption combination reaches a handler or a raise.')
 LEVEL_NOTE = ('Trusted: Cython-subset front-end incl. recorded array extents and noexcept qualifiers, CFG builder, interval rules. Restoration to "a few ulp" (x c then / c) is arithmetic, not decided. Memory leaks are outside the property.')
-EXPLANATION = 'R06.1 restore typestate; R06.2 fixed-size buffers; R06.3 success protocol; R06.4 totality of dispatch and loop progress; R06.5 LAPACK status read before reuse and before success; R06.6 array lengths checked before pointers are taken; R06.1/R06.2 additionally on the executed driver (inputs intact on every exit kind, every access within its extent); R06.7 no raw-pointer access indexed by a parameter runs before the guard that validates that parameter (check-after-use).'
+EXPLANATION = 'R06.1 restore typestate; R06.2 fixed-size buffers; R06.3 success protocol; R06.4 totality of dispatch and loop progress; R06.5 LAPACK status read before reuse and before success; R06.6 array lengths checked before pointers are taken; R06.1/R06.2 additionally on the executed driver (inputs intact on every exit kind, every access within its extent); R06.7 no raw-pointer access indexed by a parameter runs before the guard that validates that parameter (check-after-use); R06.8 malformed layer structures (a layer without or with too few slices) end in a Python exception before that layer is integrated; R06.9 the Python entry point hands every argument (raise_on_fail, verbose, the arrays, the per-layer flags) to the like-named parameter of the compiled driver.'
 
 PY_OBJECT_TYPES = ('str', 'tuple', 'list', 'dict', 'object', 'bytes')
 C_PURE = {'range', 'len', 'print', 'min', 'max', 'abs', 'int', 'float', 'isnan', 'isinf', 'isfinite', 'fabs', 'sqrt', 'cbrt', 'sin', 'cos', 'exp', 'log', 'sizeof', 'floor', 'ceil', 'pow', 'copysign', 'signbit', 'hypot', 'atan2', 'PyMem_Free', 'free',
@@ -110,6 +110,8 @@ def run(chk):
     try:
         solver_whole.assembled(chk, repo, None, None, None, rule_bounds='R06.2')
         solver_whole.inputs_intact(chk, repo, 'R06.1')
+        solver_whole.malformed_structures(chk, repo, 'R06.8')
+        solver_whole.entry_point_arguments(chk, repo, 'R06.9')
     except AnalysisError as ex:
         known = {norm_key(e_['key']) for e_ in load_known() if e_.get('property') == 'C06' and e_.get('status') == 'known'}
         if any((not o.ok) and o.key not in known for o in chk.obls):
@@ -117,6 +119,8 @@ def run(chk):
         else:
             raise
     chk.floor('R06.1', 5); chk.floor('R06.2', 60); chk.floor('R06.3', 8); chk.floor('R06.4', 10)
+    if not any((not o.ok) for o in chk.obls if o.rule in ('R06.8', 'R06.9')):
+        chk.floor('R06.8', 6); chk.floor('R06.9', 2)
 
 
 # ------------------------------------------------------------------------------------------------ R06.1
